@@ -147,7 +147,7 @@ func (e *Engine) verifyFunction(fn *ssa.Function) (rep *FnReport) {
 	}
 	// modifiable locations, for the automatic loop frame invariants
 	c.topEntry = st
-	if ct != nil && len(ct.clauses("modifies")) > 0 {
+	if ct != nil && (len(ct.clauses("modifies")) > 0 || (ct.hasCallSpec() && tc == nil)) {
 		env := fr.env(st)
 		env.useLocals = false
 		if ms, err := env.modSet(ct); err == nil {
@@ -299,6 +299,11 @@ type RunOpts struct {
 	Verbose   bool
 }
 
+// relaxedQuery: the obligation's query without quantified assumptions (candidate models only).
+func (o *Obligation) relaxedQuery() string {
+	return o.Ctx.smt.renderOpt(o.UpTo, []string{o.Reach, not(o.Goal)}, nil, true)
+}
+
 func (o *Obligation) query(extraValues bool) string {
 	c := o.Ctx
 	extra := []string{o.Reach}
@@ -332,6 +337,15 @@ func dischargeAll(obls []*Obligation, opts RunOpts) {
 				r2 := solve(q2, opts.Timeout, opts.Workdir, o.Name+".model", 1)
 				if r2.Status == "sat" {
 					res.Output = r2.Output
+				}
+			}
+			if (res.Status == "timeout" || res.Status == "unknown") && !o.Cover && o.Ctx != nil {
+				// no verdict: look for a candidate counterexample in the query without its
+				// quantified assumptions; it is reported only as a candidate (replay decides)
+				r2 := solveOne(o.relaxedQuery(), opts.Timeout, opts.Workdir, o.Name+".relaxed")
+				if r2.Status == "sat" {
+					o.Relaxed = true
+					res.Output = "candidate model from the query without quantified assumptions (to be confirmed by replay)"
 				}
 			}
 			o.Result = res
